@@ -10717,6 +10717,7 @@ func (p *parser) visitAndAppendStmt(stmts []js_ast.Stmt, stmt js_ast.Stmt) []js_
 			p.isControlFlowDead = true
 		}
 
+		_, wasBlock := s.Stmt.Data.(*js_ast.SBlock)
 		s.Stmt = p.visitSingleStmt(s.Stmt, stmtsNormal)
 		p.popScope()
 
@@ -10724,6 +10725,25 @@ func (p *parser) visitAndAppendStmt(stmts []js_ast.Stmt, stmt js_ast.Stmt) []js_
 		if shouldDropLabel {
 			p.isControlFlowDead = old
 			return stmts
+		}
+
+		// Keep the label on the loop when lowering a for-in variable initializer:
+		// "a: for (var x = y in z) continue a" => "x = y; a: for (var x in z) continue a"
+		if block, ok := s.Stmt.Data.(*js_ast.SBlock); ok && !wasBlock && len(block.Stmts) > 1 {
+			last := len(block.Stmts) - 1
+			switch block.Stmts[last].Data.(type) {
+			case *js_ast.SForIn, *js_ast.SLabel:
+				onlyExprs := true
+				for _, child := range block.Stmts[:last] {
+					if _, ok := child.Data.(*js_ast.SExpr); !ok {
+						onlyExprs = false
+					}
+				}
+				if onlyExprs {
+					stmts = append(stmts, block.Stmts[:last]...)
+					s.Stmt = block.Stmts[last]
+				}
+			}
 		}
 
 		if p.options.minifySyntax {
